@@ -301,13 +301,14 @@ METHOD_EL = {
 def method_case(draw, tier="quick"):
     k = draw(st.sampled_from(list(TYPES)))
     big = draw(st.integers(0, 9 if tier == "thorough" else 24)) == 0
-    n = draw(st.integers(101, 160)) if big else draw(st.integers(0, 6))
+    huge = draw(st.integers(0, 60)) == 0
+    n = draw(st.integers(1001, 1040)) if huge else (draw(st.integers(101, 160)) if big else draw(st.integers(0, 6)))
     vals = draw(st.lists(METHOD_EL[k], min_size=n, max_size=n))
     mask = draw(V.none_mask(n))
     vals = [None if f else x for x, f in zip(vals, mask)]
     names = sorted(x for x in dir(TYPES[k]) if not x.startswith("_") and x not in EXCLUDED)
     picks = draw(st.lists(st.tuples(st.sampled_from(names), st.sampled_from(ARGS), st.sampled_from(KWARGS)), min_size=4, max_size=10))
-    return {"kind": k, "vals": vals, "picks": picks, "all_names": draw(st.integers(0, 5)) == 0}
+    return {"kind": k, "vals": vals, "picks": picks, "all_names": (not huge) and draw(st.integers(0, 5)) == 0}
 
 
 def run_methods(case, ctx):
@@ -360,6 +361,7 @@ def run_methods(case, ctx):
         if None in vals and len({repr(x) for x in vals}) > 2:
             ctx.nontrivial(name)
     ctx.label("size_gt_100", int(len(vals) > 100))
+    ctx.label("size_gt_1000", int(len(vals) > 1000))
     ctx.label("with_none", int(None in vals))
     if [freeze(x) for x in v] != snap:
         return ctx.fail("method/operand-modified", "vector changed")
@@ -369,5 +371,5 @@ def parts(tier):
     return [
         Part("operators", run_ops, strategy=lambda t: operand_case(t), examples=(4000, 100000), shards=(8, 16)),
         Part("methods", run_methods, strategy=lambda t: method_case(t), examples=(3000, 60000), shards=(8, 16),
-             floors={"with_none": 0.15, "size_gt_100": 0.015}),
+             floors={"with_none": 0.15, "size_gt_100": 0.015, "size_gt_1000": 0.004}),
     ]
